@@ -338,7 +338,10 @@ func (l *WAL) replayPhysicRecord(fr *bufio.Reader, walFileName string, recordCom
 		writeWalType: writeWalType,
 	}
 	n, err = io.ReadFull(fr, recordCompBuff)
-	if err == nil || err == io.EOF {
+	// io.ReadFull returns io.EOF only when it read nothing at all: the record is then cut off
+	// right after its header and recordCompBuff still holds whatever it held before, which must
+	// not be decoded. Only a completely read body is a record.
+	if err == nil {
 		var innerErr error
 		binaryBuff, innerErr = snappy.Decode(binaryBuff, recordCompBuff)
 		if innerErr != nil {
